@@ -1666,6 +1666,7 @@ Definition ev_chan (c : cfg) (x : ev) : Z -> Prop :=
   | ESet ch _ _ _ => fun k => k = u8 ch
   | ESw port _ => fun k => k = last_chan (c_relays c) port (-1)
   | ECrash => fun _ => True
+  | EChCfg ch _ _ _ _ => fun k => k = ch
   | _ => fun _ => False
   end.
 Definition is_crash (x : ev) : bool := match x with ECrash => true | _ => false end.
@@ -1674,6 +1675,37 @@ Lemma Good_cfgchange s s' :
   slots s' = slots s -> delay s' = delay s -> tcd s' = tcd s -> cnt0 s' = cnt0 s -> tb s' = tb s -> upc s' = upc s -> upl s' = upl s ->
   outs s' = outs s -> now s' = now s -> Good s -> Good s'.
 Proof. intros. eapply Good_tick; eauto; try lia. split; congruence. Qed.
+
+(* a channel config message either changes nothing or stores the new staircase time and sets the timer up anew *)
+Lemma chcfg_cases e c ch func ctype csize ms s :
+  channel_config e c ch func ctype csize ms s = s \/
+  exists t, 0 <= ch < 8 /\
+    channel_config e c ch func ctype csize ms s = set_duration_timer e c ch 1 0 0 (set_time2 (setz (time2 s) ch t) s).
+Proof.
+  unfold channel_config. destruct ((0 <? func) && (ctype =? 0) && (csize =? 0)); [left; reflexivity|].
+  destruct ((func =? FNC_STAIRCASE) || (func =? FNC_POWERSWITCH) || (func =? FNC_LIGHTSWITCH)); [|left; reflexivity].
+  destruct ((0 <=? ch) && (ch <? T2_COUNT)) eqn:E; [|left; reflexivity].
+  apply andb_true_iff in E. destruct E as [E1 E2]. apply Z.leb_le in E1. apply Z.ltb_lt in E2.
+  destruct (cf_t2 consts_ok) as [_ CT].
+  set (t := if _ && _ && _ then u32 ms else 0). destruct (t =? getz (time2 s) ch); [left; reflexivity|].
+  right. exists t. split; [lia|reflexivity].
+Qed.
+Lemma chcfg_frame e c ch func ctype csize ms s : frame s (channel_config e c ch func ctype csize ms s).
+Proof.
+  destruct (chcfg_cases e c ch func ctype csize ms s) as [->|(t & _ & ->)]; [apply frame_refl|].
+  eapply frame_trans; [|apply sdt_frame]. constructor; cbn; try reflexivity; try lia. exists []; auto.
+Qed.
+Lemma chcfg_spec e c ch func ctype csize ms s s' :
+  s' = channel_config e c ch func ctype csize ms s -> wf_cfg c -> Good s -> NWw s' ->
+  Good s' /\ evo (fun k => k = ch) s s'.
+Proof.
+  intros Es' W G N. destruct (chcfg_cases e c ch func ctype csize ms s) as [E|(t & Hch & E)]; rewrite E in Es'.
+  - subst s'. split; [auto|apply evo_refl].
+  - set (s0 := set_time2 (setz (time2 s) ch t) s) in *.
+    assert (G0 : Good s0) by (eapply Good_cfgchange; [..|exact G]; reflexivity).
+    destruct (set_duration_timer_spec e c ch 1 0 0 s0 s' Es' W G0 Hch ltac:(lia) N) as (G1 & F1 & _ & E1 & _).
+    split; [auto|]. intros y Hy Ay. destruct (E1 y Hy Ay) as [H|H]; [left; exact H|right; exact H].
+Qed.
 
 Lemma step_frame e c s x : is_crash x = false -> (forall dt, x = EAdv dt -> 0 <= dt) -> frame s (step e c s x).
 Proof.
@@ -1685,6 +1717,7 @@ Proof.
   - destruct (_ && _); [|apply frame_refl]. constructor; cbn; try reflexivity; try lia. exists []; auto.
   - constructor; cbn; try reflexivity; try lia. exists []; auto.
   - apply frame_emit.
+  - apply chcfg_frame.
 Qed.
 
 Definition wf_ev (x : ev) : Prop := match x with EAdv dt => 0 <= dt | _ => True end.
@@ -1733,7 +1766,10 @@ Proof.
       split; [exists []; reflexivity|intros _; split; reflexivity].
     - assert (P1 : passive s (emit OUnknown s)) by (apply passive_emit; exact Logic.I).
       split; [eapply Good_passive; eauto|]. split; [apply P1|]. split; [apply evo_passive; auto|].
-      split; [eexists [_]; reflexivity|intros _; split; reflexivity]. }
+      split; [eexists [_]; reflexivity|intros _; split; reflexivity].
+    - destruct (chcfg_spec e c ch func ctype csize ms s _ eq_refl W G N1) as (G1 & E1).
+      pose proof (chcfg_frame e c ch func ctype csize ms s) as F1.
+      split; [auto|]. split; [apply F1|]. split; [auto|]. split; [apply F1|]. intros _. split; apply F1. }
   destruct K as (G1 & Nw & E1 & (add & O1) & C1).
   split; [eapply Good_passive; eauto|]. split; [destruct P; lia|]. split.
   - apply (evo_trans _ s s1 s'); auto. apply evo_passive; auto.
@@ -2450,6 +2486,19 @@ Proof.
   exists (a ++ b). rewrite E, E', app_assoc. reflexivity.
 Qed.
 
+Lemma chcfg_J e S c ch func ctype csize ms s s' :
+  s' = channel_config e c ch func ctype csize ms s -> wf_cfg c -> Good s -> J e S s -> NWw s' -> Slack S (outs s') -> 0 <= S ->
+  J e S s' /\ finsrc s s'.
+Proof.
+  intros Es' W G Jj N SL HS. destruct (chcfg_cases e c ch func ctype csize ms s) as [E|(t & Hch & E)]; rewrite E in Es'.
+  - subst s'. split; [auto|apply finsrc_refl].
+  - set (s0 := set_time2 (setz (time2 s) ch t) s) in *.
+    assert (G0 : Good s0) by (eapply Good_cfgchange; [..|exact G]; reflexivity).
+    assert (J0 : J e S s0) by (destruct Jj; constructor; cbn; auto).
+    destruct (sdt_J e S c ch 1 0 0 s0 s' Es' W G0 J0 Hch ltac:(lia) N SL HS) as (J1 & (add & O & Sr)).
+    split; [auto|]. exists add. split; [exact O|exact Sr].
+Qed.
+
 Lemma step_J e S c s x s' :
   s' = step e c s x -> wf_cfg c -> wf_ev x -> Good s -> J e S s -> NWw s' -> Slack S (outs s') -> 0 <= S ->
   J e S s' /\ finsrc s s'.
@@ -2498,7 +2547,10 @@ Proof.
     - split; [eapply Good_cfgchange; [..|exact G]; reflexivity|]. split; [cbn; lia|]. split; [apply evo_same_slots; reflexivity|].
       split; [destruct Jj; constructor; cbn; auto|exists []; split; [reflexivity|intros tcb ch0 tg t0 dur u0 u H; contradiction]].
     - assert (P1 : passive s (emit OUnknown s)) by (apply passive_emit; exact Logic.I).
-      destruct (JF_passive e S _ _ P1 G Jj). split; [eapply Good_passive; eauto|]. split; [apply P1|]. split; [apply evo_passive; auto|auto]. }
+      destruct (JF_passive e S _ _ P1 G Jj). split; [eapply Good_passive; eauto|]. split; [apply P1|]. split; [apply evo_passive; auto|auto].
+    - destruct (chcfg_spec e c ch func ctype csize ms s _ eq_refl W G N1) as (G1 & E1).
+      destruct (chcfg_J e S c ch func ctype csize ms s _ eq_refl W G Jj N1 SL1 HS).
+      split; [auto|]. split; [apply (chcfg_frame e c ch func ctype csize ms s)|]. auto. }
   destruct K as (G1 & Hn1 & E1 & J1 & FS1).
   destruct (JF_passive e S _ _ P G1 J1) as [J' FS']. split; auto. eapply finsrc_trans; eauto.
 Qed.
